@@ -13,3 +13,10 @@ for p in sorted(glob.glob(os.path.join(HERE, "ext", "*.py"))):
     exec(open(p).read(), ns)
     name = os.path.basename(p)[:-3]
     ALTS_F.append(dict(id="alt6-" + name, props=ns.get("PROPS", PROPS.get(name[0], FLOW)), edits=list(ns["EDITS"]), why=ns.get("WHY", "")))
+
+# reviewer B6's file (dictionary format): the three alternatives that exposed findings plus controls
+import ext_b6  # noqa: E402
+for _id, _props in (("batchfallback", ["C07", "C02", "C06", "C09", "C11", "C17"]), ("batchfallback-deleg", ["C07", "C02"]),
+                    ("rampup", ["C08", "C12", "C06"]), ("resizepoll", ["C12", "C08"])):
+    if _id in ext_b6.ALTS:
+        ALTS_F.append(dict(id="alt6-" + _id, props=_props, edits=ext_b6.ALTS[_id]["edits"], why=ext_b6.ALTS[_id]["why"]))
